@@ -175,6 +175,8 @@ type Engine struct {
 	ticks     int // remaining ticker firings granted by verifrt.Ticks
 	timers    []*ctxState // contexts with a deadline
 	tickEpoch int
+	randStream bool // crypto/rand yields a concrete stream of pairwise distinct windows
+	randPos    int
 	numStr    map[string]*Term
 	randDraws [][]*Term
 	symIPs    map[string]Value
@@ -316,6 +318,7 @@ func (e *Engine) runPath(fn *ssa.Function) (cont bool) {
 	e.ticks = 0
 	e.timers = nil
 	e.tickEpoch = 0
+	e.randStream, e.randPos = false, 0
 	e.clock = e.st.Const(64, 1<<60)
 	if e.solver != nil {
 		e.solver.PopTo(0)
